@@ -100,14 +100,15 @@ def run(out: Outcome, drv, frontends=None):
         ctxs = sc.gen_config(rng, tab)
         cfg = sc.config_dict(ctxs)
         wins = [[c["window"][0], c["window"][1]] for c in ctxs]
-        a, = drv.run([{"kind": "window", "t": tab["t"], "windows": wins}])
-        masks = a["spec"]
+        masks = sc.spec_masks(drv, tab, wins)
         exp = expected_records(tab, ctxs, masks)
         exp_probe = sorted(json.dumps(p, sort_keys=True) for r in exp if r["probe"] for p in r["probe"])
         exp_keys = sorted(key(r) for r in exp)
         if it % 3 == 0 and tab["n"] > 0:
             run_config_reuse(out, drv, rng, tab, ctxs, cfg, frontends[it // 3 % len(frontends)])
         fes = list(frontends)
+        if tab["n"] > 0 and (out.tier == "thorough" or it % 2 == 0):
+            fes += ["xarray_obs", "netcdf_obs"]
         if tab["n"] > 0 and (out.tier == "thorough" or it % 5 == 0):
             fes += ["netcdf_file", "xarray_file"]
         for fe in fes:
@@ -145,8 +146,7 @@ def run_qcconfig(out, drv, rng, maxn):
     ctxs = sc.gen_config(rng, tab, tests=[t for t in sc.usable_tests(tab) if t != "probe"])
     cfg = sc.config_dict(ctxs)
     wins = [[c["window"][0], c["window"][1]] for c in ctxs]
-    a, = drv.run([{"kind": "window", "t": tab["t"], "windows": wins}])
-    masks = a["spec"]
+    masks = sc.spec_masks(drv, tab, wins)
     exp = expected_records(tab, ctxs, masks)
     want = {}
     for r in exp:
@@ -200,8 +200,7 @@ def run_config_reuse(out, drv, rng, tab, ctxs, cfg, fe):
     for sid, col in tab2["cols"].items():
         tab2["cols"][sid] = [None if v is None else v + 1 for v in col]
     wins = [[c["window"][0], c["window"][1]] for c in ctxs]
-    a, = drv.run([{"kind": "window", "t": tab2["t"], "windows": wins}])
-    masks = a["spec"]
+    masks = sc.spec_masks(drv, tab2, wins)
     case = {"frontend": fe, "table": tab2, "contexts": ctxs, "same_Config_object_first_run_on": tab, "dropped_axes": dropped}
     try:
         with warnings.catch_warnings():
